@@ -15,14 +15,30 @@ THEOREMS = [
     "HedVerif.C15.term_quoted",
     "HedVerif.C15.term_prefix",
     "HedVerif.C15.or_iff",
+    "HedVerif.C15.or_comm",
+    "HedVerif.C15.or_assoc",
     "HedVerif.C15.and_imp",
     "HedVerif.C15.and_iff",
     "HedVerif.C15.and_comm",
     "HedVerif.C15.and_distinct",
+    "HedVerif.C15.and_assoc",
     "HedVerif.C15.and_assoc_partial",
-    "HedVerif.C15.parse_total",
+    "HedVerif.C15.legacy_assoc_counterexample",
+    "HedVerif.C15.negation",
+    "HedVerif.C15.descendant",
+    "HedVerif.C15.exact_any",
+    "HedVerif.C15.exact_none",
+    "HedVerif.C15.exact_opt",
+    "HedVerif.C15.wildcard",
+    "HedVerif.C15.sibling_order",
+    "HedVerif.C15.sibling_order_partial",
+    "HedVerif.C15.legacy_sibling_order_counterexample",
     "HedVerif.C15.pure",
+    "HedVerif.C15.batch_eq_single",
+    "HedVerif.C15.handlers_spec",
+    "HedVerif.C15.parse_total",
     "HedVerif.C15.unbalanced_rejected",
+    "HedVerif.C15.compiled_balanced",
     "HedVerif.C15.legacy_unbalanced_counterexample",
 ]
 BUDGET = {"quick": 900, "thorough": 3600}
@@ -202,6 +218,10 @@ class Impl:
         # model has both parsers (`legacy` flag) so that the correspondence stays exact on either tree and the
         # defect is reported once, by the oracle, as a concrete violation.
         self.legacy = self.compile(")")[0] == "ok" and self.compile("]]")[0] == "ok"
+        # Before the repair fixes/C15_same_tags_group_identity.diff `has_same_tags` compares the groups by equality:
+        # the result of `~a && ~b` on the second of two equal groups is dropped (`structeq` flag of the model).
+        st, h = self.compile("~green && ~blue")
+        self.structeq = st == "ok" and len(h.search(self.hed("(Red),(Red)"))) == 2
 
     def hed(self, s):
         return self.HedString(s, self.schema)
@@ -246,7 +266,7 @@ def check_pairs(ctx, im, pairs, kind):
         before = str(hs)
         tj, ids = im.tree(hs)
         prepared.append((q, s, hs, before, tj, ids))
-        reqs.append({"op": "c15.eval", "text": prefold(q), "tree": tj, "legacy": im.legacy})
+        reqs.append({"op": "c15.eval", "text": prefold(q), "tree": tj, "legacy": im.legacy, "structeq": im.structeq})
     ans = ctx.model.batch(reqs)
     for (q, s, hs, before, tj, ids), m in zip(prepared, ans):
         case = {"kind": "pair", "q": q, "hed": s}
@@ -393,7 +413,7 @@ def dup_scenario(rng, pool):
     return top, parents, copies, members, sides[:n_copies]
 
 
-def dup_variants(rng, top, parents, copies, cap=48):
+def dup_variants(rng, top, parents, copies, cap=40):
     """sibling reorderings: ALL permutations of the top level x of the children of every parent of a copy x of the
     members of every copy when that is at most `cap` annotations, else `cap` random ones (identity always first)"""
     import itertools
@@ -425,6 +445,12 @@ def dup_variants(rng, top, parents, copies, cap=48):
     return out
 
 
+def dup_signature(im, q):
+    """the family of finding 'has_same_tags compares groups by equality': only on a tree that has that code, only
+    for queries that produce results without children (`~`, `@`), only from the equal-sub-groups generator"""
+    return "C15-childless-results-on-equal-groups" if im.structeq and ("~" in q or "@" in q) else None
+
+
 def dup_oracle(ctx, im, rng, n):
     """Sibling-order invariance, &&-commutativity and &&-associativity on annotations with structurally equal
     sub-groups, for queries that lift an && result through [ ] / { } and combine it with a term that sits next to
@@ -437,16 +463,23 @@ def dup_oracle(ctx, im, rng, n):
         variants = dup_variants(rng, top, parents, copies)
         hss = [im.hed(s) for s in variants]
         lifted = [f"[{a} && {b}]", "{" + f"{a} && {b}" + "}", f"[{b} && {a}]"]
+        absent = [term[x] for x in pool if x not in tree_str(top)][:3] + ["xyzzy", "qwerty", "foo"]
+        x1, x2, x3 = absent[:3]
+        # results without children (negation, @) on equal groups: the duplicate filter must not merge them
+        neg_lifted = [f"[~{x1} && ~{x2}]", f"[@{x1} && @{x2}]", "{" + f"~{x1} && ~{x2}" + "}"]
         queries, comm, assoc = [], [], []
         for side in sides:
             c = term[side]
             L = rng.choice(lifted)
             queries += [f"{L} && {c}", f"[{L} && {c}]", "{" + f"{L} && {c}" + "}", f"[[{a} && {b}] && {c}]"]
-            comm.append((L, c))
-            assoc.append((L, c, rng.choice(lifted)))
+            N = rng.choice(neg_lifted)
+            queries += [f"[{N} && {c}]", "{" + f"{N} && {c}" + "}", f"[[~{x1} && ~{x2}] && {c}]"]
+            comm += [(L, c), (N, c)]
+            assoc += [(L, c, rng.choice(lifted)), (N, c, f"~{x3}")]
         queries += [f"{lifted[0]} && {lifted[0]}", f"{lifted[1]} && {lifted[1]}", f"{lifted[0]} && {lifted[2]}",
                     f"[{lifted[0]} && {lifted[0]}]", f"{lifted[0]} && {lifted[1]}"]
         comm += [(lifted[0], lifted[1]), (lifted[0], lifted[2])]
+        assoc += [(f"~(~{x1} && ~{x2})", f"~{x3}", f"~{x1}"), (f"~(~{x1} && ~{x2})", f"~{x3}", lifted[0])]
         compiled = {}
 
         def val(q, k):
@@ -467,19 +500,20 @@ def dup_oracle(ctx, im, rng, n):
             if len(set(vals)) > 1:
                 k1, k2 = vals.index(True), vals.index(False)
                 ctx.violation("sibling-order", {"kind": "order", "q": q, "hed": variants[k1], "hed2": variants[k2]},
-                              {"matches_first": True, "matches_reordered": False})
+                              {"matches_first": True, "matches_reordered": False}, dup_signature(im, q))
         for x, y in comm:
             for k in range(len(variants)):
                 if val(f"{x} && {y}", k) != val(f"{y} && {x}", k):
                     ctx.violation("and-commutative", {"kind": "law", "A": x, "B": y, "C": y, "hed": variants[k],
-                                                      "law": "and-commutative"}, f"{x} && {y} vs {y} && {x}")
+                                                      "law": "and-commutative"}, f"{x} && {y} vs {y} && {x}",
+                                  dup_signature(im, x + y))
                     break
         for x, y, z in assoc:
             for k in range(len(variants)):
                 ctx.evaluations += 1
                 if val(f"({x} && {y}) && {z}", k) != val(f"{x} && ({y} && {z})", k):
                     ctx.violation("and-associative", {"kind": "law", "A": x, "B": y, "C": z, "hed": variants[k],
-                                                      "law": "and-associative"}, "")
+                                                      "law": "and-associative"}, "", dup_signature(im, x + y + z))
                     break
         ctx.case((tuple(variants[:1]), a, b), nontrivial=any_match)
         ctx.check_time()
@@ -561,42 +595,58 @@ def law_oracle(ctx, im, rng, n_triples, trees_per):
 
 
 def service_check(ctx, im, rng, n_batches):
-    """`get_query_handlers` / `search_hed_objs`: one column per query, 1 exactly where the query matches"""
+    """`get_query_handlers` / `search_hed_objs` against `Query.getHandlers` / `Query.searchObjs` and against the
+    single searches: one handler per compilable query, one issue per other query (plus one for bad names), one
+    column per handler, 1 exactly where the object is non-empty and the query matches it."""
     for _ in range(n_batches):
-        queries = [render(gen_query(rng, 3), rng) if rng.random() < 0.8 else gen_malformed(rng) for _ in range(5)]
+        nq = rng.choice([0, 1, 3, 5, 5])
+        queries = [render(gen_query(rng, 3), rng) if rng.random() < 0.8 else gen_malformed(rng) for _ in range(nq)]
         strings = [tree_str(gen_tree(rng, 3)) for _ in range(6)]
+        r = rng.random()
+        names = None if r < 0.6 else [f"n{i}" for i in range(nq)] if r < 0.8 else \
+            [f"n{i % 2}" for i in range(nq)] if r < 0.9 else [f"n{i}" for i in range(nq + 1)]
+        case0 = {"kind": "service", "queries": queries, "names": names}
         try:
-            handlers, names, issues = im.qs.get_query_handlers(queries)
+            handlers, hnames, issues = im.qs.get_query_handlers(queries, names)
         except Exception as e:  # noqa
-            ctx.violation("get_query_handlers-raised", {"kind": "service", "queries": queries}, repr(e))
-            continue
-        sts = [im.compile(q)[0] for q in queries]
-        if [h is not None for h in handlers] != [s == "ok" for s in sts] or \
-                len(issues) != sum(1 for s in sts if s != "ok"):
-            ctx.violation("get_query_handlers-outcome", {"kind": "service", "queries": queries}, issues)
-            continue
-        good = [i for i, h in enumerate(handlers) if h is not None]
-        if not good:
+            ctx.violation("get_query_handlers-raised", case0, repr(e))
             continue
         objs = [im.hed(s) for s in strings]
-        df = im.qs.search_hed_objs(objs, [handlers[i] for i in good], [names[i] for i in good])
-        reqs = [{"op": "c15.eval", "text": prefold(queries[i]), "tree": im.tree(o)[0], "legacy": im.legacy}
-                for i in good for o in objs]
-        ans = ctx.model.batch(reqs)
-        k = 0
-        for i in good:
+        if im.legacy:
+            continue
+        m = ctx.model.batch([{"op": "c15.batch", "queries": [prefold(q) for q in queries], "names": names or None,
+                              "trees": [im.tree(o)[0] for o in objs], "structeq": im.structeq}])[0]
+        ctx.evaluations += 1
+        ctx.count("service-batches")
+        if handlers is None:
+            if not m.get("none"):
+                ctx.disagree("Query.getHandlers = get_query_handlers", case0, m, "None")
+            continue
+        sts = [im.compile(q)[0] for q in queries]
+        if [h is not None for h in handlers] != [x == "ok" for x in sts] or \
+                len(issues) < sum(1 for x in sts if x != "ok"):
+            ctx.violation("get_query_handlers-outcome", case0, issues)
+            continue
+        if m.get("none") or m["handlers"] != [h is not None for h in handlers] or m["issues"] != len(issues) \
+                or m["names"] != list(hnames):
+            ctx.disagree("Query.getHandlers = get_query_handlers", case0, m,
+                         {"handlers": [h is not None for h in handlers], "issues": len(issues), "names": list(hnames)})
+            continue
+        good = [i for i, h in enumerate(handlers) if h is not None]
+        if not good or len(set(hnames)) != len(hnames) or len(hnames) != len(queries):
+            continue
+        df = im.qs.search_hed_objs(objs, [handlers[i] for i in good], [hnames[i] for i in good])
+        for col, i in enumerate(good):
             for j, o in enumerate(objs):
                 want = 1 if (bool(o) and bool(handlers[i].search(o))) else 0
-                got = int(df.at[j, names[i]])
-                mm = ans[k]
-                k += 1
+                got = int(df.at[j, hnames[i]])
                 ctx.evaluations += 1
                 ctx.count("service-cells")
                 case = {"kind": "pair", "q": queries[i], "hed": strings[j]}
                 if got != want:
                     ctx.violation("search_hed_objs-cell", case, {"got": got, "want": want})
-                if mm.get("ok") and bool(o) and int(mm["match"]) != got:
-                    ctx.disagree("Query.isMatch = search_hed_objs cell", case, mm, got)
+                if m["cells"][j][col] != got:
+                    ctx.disagree("Query.searchObjs = search_hed_objs cell", case, m["cells"][j][col], got)
 
 
 CORPUS_Q = ["a", "a && b", "a || b", "~a", "[a]", "{a}", "{a:}", "{a: b}", "?", "??", "???", "a && ?", "[ [a] && b ]",
@@ -616,6 +666,7 @@ def run(ctx):
     rng = ctx.rng
     quick = ctx.quick()
     ctx.extra["pre_repair_parser_detected"] = im.legacy
+    ctx.extra["pre_repair_has_same_tags_detected"] = im.structeq
     ctx.extra["rule"] = ("queries drawn from the grammar {term, \"term\", term*, term/value, @term, ?, ??, ???, &&, ',', ||, ~, "
                          "( ), [ ], { }, {:}, {: }} to nesting 4 (rendered spaced / compact) plus a malformed stream (token "
                          "soup, one-token edits of well-formed queries); annotations to depth 4 over real 8.3.0 tags with "
@@ -646,7 +697,7 @@ def run(ctx):
     # laws on the implementation
     term_oracle(ctx, im, rng, 150 if quick else 3000)
     pair_oracle(ctx, im, rng, 300 if quick else 6000)
-    dup_oracle(ctx, im, rng, 80 if quick else 1500)
+    dup_oracle(ctx, im, rng, 60 if quick else 1500)
     law_oracle(ctx, im, rng, *((220, 5) if quick else (4000, 6)))
     service_check(ctx, im, rng, 12 if quick else 150)
     # report the smallest divergence / violation first
